@@ -608,6 +608,53 @@ func init() {
 					Expected: map[string]string{"roundtrip": "decode(encode(x)) == x", "reject": "decoder returns an error"}[c.Dir], Observed: detail})
 			}
 		})
+		// history independence: the codecs are functions of their input alone. For every primitive and
+		// direction, every ORDERED PAIR of up to 60 of its cases is evaluated back to back in one goroutine;
+		// the second evaluation must still hold (a value remembered from an earlier call would show).
+		groups := map[string][]c16Case{}
+		var gorder []string
+		for _, c := range cases {
+			k := c.Prim + "/" + c.Dir
+			if _, ok := groups[k]; !ok {
+				gorder = append(gorder, k)
+			}
+			groups[k] = append(groups[k], c)
+		}
+		r.Parallel(len(gorder), func(gi int, s *engine.Shard) {
+			g := groups[gorder[gi]]
+			var sel []c16Case
+			if len(g) <= 60 {
+				sel = g
+			} else {
+				sel = append(sel, g[:30]...)
+				for k := 0; k < 30; k++ {
+					sel = append(sel, g[30+k*(len(g)-30)/30])
+				}
+			}
+			for ai, a := range sel {
+				for bi, b := range sel {
+					c16Eval(a)
+					class, detail := c16Eval(b)
+					s.Transition()
+					s.Transition()
+					s.Clause("history independence: " + gorder[gi])
+					s.Nontrivial(fmt.Sprintf("H/%s/%d/%d", gorder[gi], ai, bi))
+					if class != "" {
+						s.Violate(engine.Violation{Sig: fmt.Sprintf("C16/history/%s/%s", gorder[gi], class), Clause: "history", Index: int64(1)<<40 + int64(gi)<<20 + int64(ai)<<10 + int64(bi), Kind: "C16-history",
+							Case: map[string]interface{}{"First": a, "Second": b}, Expected: "the second evaluation holds like when it is the only one", Observed: detail})
+					}
+				}
+			}
+		})
+	})
+	registerReplay("C16-history", func(raw json.RawMessage) (bool, string) {
+		var c struct{ First, Second c16Case }
+		if err := json.Unmarshal(raw, &c); err != nil {
+			return false, err.Error()
+		}
+		c16Eval(c.First)
+		class, detail := c16Eval(c.Second)
+		return class == "", class + " " + detail
 	})
 	registerReplay("C16", func(raw json.RawMessage) (bool, string) {
 		var c c16Case
